@@ -1290,6 +1290,20 @@ class Repo:
                         self.functions[(rel, n.name)] = fu
                         self.funcs_by_name.setdefault(n.name, []).append(fu)
 
+        # inheritance inside the package: a subclass answers to the methods of its package bases that it does not override
+        bases = {}
+        for rel, tree in self.trees.items():
+            for n in tree.body:
+                if isinstance(n, ast.ClassDef):
+                    bases[n.name] = [ast.unparse(b).split('.')[-1] for b in n.bases]
+        self.class_bases = bases
+        for _ in range(4):
+            for c, bs in bases.items():
+                for b in bs:
+                    for mname, mf in list(self.classes.get(b, {}).items()):
+                        if c in self.classes and mname not in self.classes[c]:
+                            self.classes[c][mname] = mf
+
     # ---- look-ups -------------------------------------------------------------
     @staticmethod
     def _core(name):
